@@ -43,7 +43,7 @@ void property(const pbt::Tape& t, pbt::Ctx& ctx) {
     const int nUnits = (int)t.size() - 1;
     const int nb = std::max(1, std::min(4, (nUnits + 1) / 2));           // first units: bodies; remaining: force elements
     mbgen::ModelSpec spec = mbgen::decodeModel(t, 1, nb, g, opt);
-    const int variant = g.pick(5);          // 0,1 conservative (gravity+springs); 2 free-floating; 3 dissipative; 4 dissipation tracked
+    const int variant = g.pick(6);          // 0,1 conservative (gravity+springs); 2 free-floating; 3 dissipative; 4 dissipation tracked; 5 conservative + workless constraints
     const int integ0_ = g.pick(NumInteg); const int integ = getenv("C11_INTEG") ? atoi(getenv("C11_INTEG")) : integ0_;
     const double acc = std::pow(10.0, -3.0 - 4.0 * g.unit());
     const double T = 0.5 + 1.5 * g.unit();
@@ -54,6 +54,13 @@ void property(const pbt::Tape& t, pbt::Ctx& ctx) {
     // variant 4: elements that REPORT the energy they dissipate (LinearBushing with damping, CableSpring with
     // dissipation): E + sum(dissipated) must be conserved like the energy of a conservative model.
     const double trkK = g.logreal(2, 60), trkC = g.logreal(0.1, 4), trkSlack = g.uniform(0.1, 0.6); const int trkKind = g.pick(3);   // 0 bushing, 1 cable, 2 both
+    // variant 5: the conservative model plus 1..2 workless constraints (Rod, Ball, PointInPlane) whose parameters are fitted to
+    // the generated configuration; velocities are projected onto the constraints before the run starts
+    const bool constrained = variant == 5;
+    struct ConsSpec { int kind, a, b; Vec3 pa, pb, n; };
+    std::vector<ConsSpec> cons;
+    if (constrained) { const int nc = 1 + g.pick(2); for (int i = 0; i < nc; ++i) { ConsSpec c; c.kind = g.pick(3); c.a = g.pick(nb + 1); c.b = g.pick(nb + 1);
+            c.pa = Vec3(g.real(-0.5, 0.5), g.real(-0.5, 0.5), g.real(-0.5, 0.5)); c.pb = Vec3(g.real(-0.5, 0.5), g.real(-0.5, 0.5), g.real(-0.5, 0.5)); c.n = Vec3(g.real(-1, 1), g.real(-1, 1), g.real(-1, 1)); cons.push_back(c); } }
     if (freeFloat) { spec.bodies[0].type = mbgen::Free; spec.bodies[0].parent = 0; spec.bodies[0].reversed = false; for (int k = 0; k < 7; ++k) spec.bodies[0].q[k] = k == 0 ? 1 : (k < 4 ? 0 : spec.bodies[0].q[k]);
         for (size_t i = 1; i < spec.bodies.size(); ++i) if (spec.bodies[i].parent == 0) spec.bodies[i].parent = 1; }
 
@@ -69,7 +76,8 @@ void property(const pbt::Tape& t, pbt::Ctx& ctx) {
     if (ctx.wantDesc) { spec.describe(ctx.desc); ctx.desc << "variant=" << (freeFloat ? "free-floating" : dissip ? "dissipative" : tracked ? "dissipation-tracked" : "conservative") << " integrator=" << integName(integ) << " accuracy=" << acc << " T=" << T << " gravity=" << grav << " forces=" << fs.size() << "\n";
         for (auto& f : fs) ctx.desc << "  force kind " << f.kind << " bodies " << f.b1 << "," << f.b2 << " k=" << f.k << " x0=" << f.x0 << " c=" << f.c << " coord body " << f.coordBody << " coord " << f.coord << "\n"; }
     mbgen::labelModel(ctx, spec);
-    ctx.label(std::string("integ:") + integName(integ)); ctx.label(freeFloat ? "variant:free-floating" : dissip ? "variant:dissipative" : tracked ? "variant:dissipation-tracked" : "variant:conservative");
+    ctx.label(std::string("integ:") + integName(integ)); ctx.label(freeFloat ? "variant:free-floating" : dissip ? "variant:dissipative" : tracked ? "variant:dissipation-tracked" : constrained ? "variant:constrained-conservative" : "variant:conservative");
+    if (constrained) for (auto& c : cons) if (c.a != c.b) ctx.label(c.kind == 0 ? "cons:Rod" : c.kind == 1 ? "cons:Ball" : "cons:PointInPlane");
     if (tracked) ctx.label(trkKind == 0 ? "tracked:bushing" : trkKind == 1 ? "tracked:cablespring" : "tracked:bushing+cablespring");
 
     auto simulate = [&](double accuracy) -> Run {
@@ -93,9 +101,33 @@ void property(const pbt::Tape& t, pbt::Ctx& ctx) {
                 cable = CableSpring(m.forces, path, trkK, trkSlack, trkC); }
         }
         m.forces.setNumberOfThreads(1);
-        m.finish(spec); m.setState(spec);
+        // constraints are added with placeholder parameters, then fitted to the generated configuration below
+        std::vector<Constraint> builtCons;
+        if (constrained) for (auto& c : cons) { if (c.a == c.b) continue; MobilizedBody& A = m.mb[c.a]; MobilizedBody& B = m.mb[c.b];
+            if (c.kind == 0) builtCons.push_back(Constraint::Rod(A, c.pa, B, c.pb, 1.0));
+            else if (c.kind == 1) builtCons.push_back(Constraint::Ball(A, c.pa, B, c.pb));
+            else { if (c.n.norm() < 0.1) continue; builtCons.push_back(Constraint::PointInPlane(A, UnitVec3(c.n), 0.0, B, c.pb)); } }
+        if (constrained && builtCons.empty()) { R.why = "no-constraint-built"; return R; }
+        if (constrained) {      // fit the DEFAULT parameters to the generated pose (same result for both accuracy runs), then rebuild the State
+            m.finish(spec); m.setState(spec); State& s0 = m.state; m.sys.realize(s0, Stage::Position);
+            for (auto& k : builtCons) {
+                if (Constraint::Rod::isInstanceOf(k)) { Constraint::Rod& r = Constraint::Rod::updDowncast(k); const MobilizedBody& A = m.matter.getMobilizedBody(r.getBody1MobilizedBodyIndex()); const MobilizedBody& B = m.matter.getMobilizedBody(r.getBody2MobilizedBodyIndex());
+                    double L = (A.findStationLocationInGround(s0, r.getDefaultPointOnBody1()) - B.findStationLocationInGround(s0, r.getDefaultPointOnBody2())).norm(); if (L < 0.3) { R.why = "rod-too-short"; return R; } r.setDefaultRodLength(L); }
+                else if (Constraint::Ball::isInstanceOf(k)) { Constraint::Ball& b = Constraint::Ball::updDowncast(k); const MobilizedBody& A = m.matter.getMobilizedBody(b.getBody1MobilizedBodyIndex()); const MobilizedBody& B = m.matter.getMobilizedBody(b.getBody2MobilizedBodyIndex());
+                    b.setDefaultPointOnBody2(B.findStationAtGroundPoint(s0, A.findStationLocationInGround(s0, b.getDefaultPointOnBody1()))); }
+                else { Constraint::PointInPlane& pp = Constraint::PointInPlane::updDowncast(k); const MobilizedBody& A = m.matter.getMobilizedBody(pp.getPlaneMobilizedBodyIndex()); const MobilizedBody& B = m.matter.getMobilizedBody(pp.getFollowerMobilizedBodyIndex());
+                    Vec3 pInA = A.findStationAtGroundPoint(s0, B.findStationLocationInGround(s0, pp.getDefaultFollowerPoint())); pp.setDefaultPlaneHeight(~Vec3(pp.getDefaultPlaneNormal()) * pInA); }
+            }
+            m.finish(spec); m.setState(spec);
+        } else { m.finish(spec); m.setState(spec); }
         State& s = m.state;
         if (s.getNU() == 0) { R.why = "nu=0"; return R; }
+        if (constrained) {
+            try { m.sys.realize(s, Stage::Position); m.sys.project(s, 1e-10); } catch (const std::exception&) { R.why = "assembly-failed"; return R; }
+            m.sys.realize(s, Stage::Velocity); Matrix G; m.matter.calcG(s, G);      // independent, non-vanishing constraint rows only (cf. C21)
+            if (G.nrow() == 0) { R.why = "no-constraint-built"; return R; }
+            Matrix GGt = G * ~G; std::vector<Real> ev; refdyn::symEig(GGt, ev); if (!(ev.front() > 1e-8 * std::max(ev.back(), 1.0))) { R.why = "rank-deficient-constraints"; return R; }
+        }
         auto dissipated = [&](const State& c) { double d = 0; if (tracked && trkKind != 1) d += bushing.getDissipatedEnergy(c); if (tracked && trkKind != 0) d += cable.getDissipatedEnergy(c); return d; };
         std::unique_ptr<Integrator> in(makeIntegrator(integ, m.sys));
         if (!in->methodHasErrorControl()) { R.why = "no-error-control"; return R; }
@@ -137,7 +169,10 @@ void property(const pbt::Tape& t, pbt::Ctx& ctx) {
     if (!R.ok) { ctx.reject(R.why); return; }
     const double law = std::pow(acc, kExp[integ]) * (T + 0.1);
     static const bool calib = getenv("C11_CALIB") != nullptr;
-    const double C = calib ? (atof(getenv("C11_CALIB")) > 1 ? atof(getenv("C11_CALIB")) : 1e300) : kConst[integ];
+    // the constrained variant was calibrated on a smaller sample (seeds 31-36: ~100 judged runs per integrator, largest ratios
+    // within the frozen constants with >= 10x margin); it gets a further factor 10
+    const double Cfac = constrained ? 10.0 : 1.0;
+    const double C = Cfac * (calib ? (atof(getenv("C11_CALIB")) > 1 ? atof(getenv("C11_CALIB")) : 1e300) : kConst[integ]);
     int nuTot = 0; for (auto& b : spec.bodies) nuTot += mbgen::mobNU(b.type);
     bool u0 = spec.zeroU;
     ctx.nontrivial(nuTot >= 3 && !u0 && !fs.empty());
@@ -146,7 +181,7 @@ void property(const pbt::Tape& t, pbt::Ctx& ctx) {
     auto bin = [&](const char* what, double ratio) { if (!calib) return; int e = ratio <= 0 ? -9 : (int)std::floor(std::log10(ratio)); char b[96]; snprintf(b, sizeof b, "calib:%s:%s:1e%+03d", what, integName(integ), e); ctx.label(b); };
 
     if (!dissip) {
-        double ratio = R.maxDrift / (R.Escale * law); bin(tracked ? "Etrk" : "E", ratio);
+        double ratio = R.maxDrift / (R.Escale * law); bin(tracked ? "Etrk" : constrained ? "Econ" : "E", ratio);
         if (!(ratio <= C)) { ctx.fail(std::string(integName(integ)) + ": energy drift " + S(R.maxDrift) + " (scale " + S(R.Escale) + ") = " + S(ratio) + " x acc^" + S(kExp[integ]) + "*(T+0.1) exceeds the calibrated constant " + S(C) + " at accuracy " + S(acc)); return; }
     } else {
         double ratio = R.maxIncrease / (R.Escale * law); bin("Einc", ratio);
@@ -167,9 +202,9 @@ void property(const pbt::Tape& t, pbt::Ctx& ctx) {
 pbt::Config config() {
     pbt::Config c; c.prop = "C11"; c.K = mbgen::K; c.minUnits = 2;
     c.quick = {120, 500, 8, 30}; c.thorough = {1500, 6000, 8, 300};
-    c.rule = "rapidcheck tape -> mbgen tree (1..4 bodies; Pin, Slider, Universal, Cylinder, Planar, Ball, Free, Translation, Screw, Ellipsoid, LineOrientation, FreeLine, Weld; quaternion mode) + force units (two-point springs, mobility springs on qdot==u coordinates; dampers in the dissipative variant) + variant {conservative with uniform gravity, free-floating without gravity, dissipative, dissipation-tracked: damped LinearBushing and/or CableSpring over a CablePath between the first and last body, judged on energy + sum getDissipatedEnergy} + integrator in {RK Merson, RK3, RK Feldberg, RK2, Verlet, SemiExplicitEuler2, CPodes} + accuracy 1e-3..1e-7 + horizon 0.5..2, every internal step examined. Non-trivial: >= 3 mobilities, u(0) != 0 and at least one force element; distinct by tape hash.";
+    c.rule = "rapidcheck tape -> mbgen tree (1..4 bodies; Pin, Slider, Universal, Cylinder, Planar, Ball, Free, Translation, Screw, Ellipsoid, LineOrientation, FreeLine, Weld; quaternion mode) + force units (two-point springs, mobility springs on qdot==u coordinates; dampers in the dissipative variant) + variant {conservative with uniform gravity, free-floating without gravity, dissipative, constrained-conservative: the conservative model plus 1..2 workless constraints (Rod / Ball / PointInPlane fitted to the generated pose, velocities projected, independent rows only), dissipation-tracked: damped LinearBushing and/or CableSpring over a CablePath between the first and last body, judged on energy + sum getDissipatedEnergy} + integrator in {RK Merson, RK3, RK Feldberg, RK2, Verlet, SemiExplicitEuler2, CPodes} + accuracy 1e-3..1e-7 + horizon 0.5..2, every internal step examined. Non-trivial: >= 3 mobilities, u(0) != 0 and at least one force element; distinct by tape hash.";
     c.assumptions = {"drift law C_int * Escale * (t+0.1) * acc^(p/(p+1)) with C_int frozen >= 10x above the calibration maximum (DESIGN 10.3)", "Escale = max KE + max |PE-PE0| + 0.01*total mass; integrator exceptions are clean rejections", "force evaluation single-threaded", "LinearBushing cases end (rejected) when its Euler angles leave |qy|<=1.2, |qx|,|qz|<=2.8 rad: the element is documented singular near 90 deg of the middle angle"};
-    c.requiredLabels = {"variant:dissipation-tracked", "tracked:cablespring", "integ:RungeKuttaMerson", "integ:Verlet", "integ:CPodes", "integ:SemiExplicitEuler2", "variant:free-floating", "variant:dissipative", "variant:conservative"};
+    c.requiredLabels = {"variant:constrained-conservative", "cons:Rod", "cons:Ball", "cons:PointInPlane", "variant:dissipation-tracked", "tracked:cablespring", "integ:RungeKuttaMerson", "integ:Verlet", "integ:CPodes", "integ:SemiExplicitEuler2", "variant:free-floating", "variant:dissipative", "variant:conservative"};
     c.caseTimeoutSecs = 300;
     return c;
 }
